@@ -474,6 +474,12 @@ def correspond(ctx, flags, mods, lex_pool=()):
         tr, tp = float_tables(irimport, m, [text] if text else [])
         cases.append(('case_print %s %s (%s)' % (cfg, tab_term(tr), term), pv))
         recs.append(('print', m, None))
+        # hypotheses of c15_roundtrip: wf && printable (model) must imply that the real round trip succeeded
+        tab = [(b, s2) for b, s2 in tr if irimport.float_bits(float(s2)) == b]
+        real_ok = oracle(irimport, m, ignore_volatile=True) is None
+        dist['real_roundtrip_ok'] = dist.get('real_roundtrip_ok', 0) + real_ok
+        cases.append(('case_hyp %s %s (%s) %s' % (cfg, tab_term(tab), term, 'true' if real_ok else 'false'), True))
+        recs.append(('theorem-hypotheses', m, text))
         if text is None or not printable_ascii(text):
             dist['skipped_nonascii'] += text is not None
             continue
@@ -530,7 +536,7 @@ def run(ctx):
     logging.getLogger('verifier').setLevel(logging.ERROR)
 
     regen(ctx)
-    ok, _ = ctx.build(['Proofs/C15_irtext.vo'])
+    ok, _ = ctx.build(['Proofs/C15_irtext.vo', 'Proofs/C15_compose.vo'])
     if ok:
         ctx.check_props('Props/C15.v')
 
@@ -701,16 +707,19 @@ RULE = ('modules from tools/gen/irgen.py (seeded; all features incl. shuffled bl
         'third module a reader case on a mutated text; non-trivial = module with at least one function whose real text is '
         'read back successfully')
 EXPLANATION = ('Coq theorems about Model.IrText (hand model of Writer + __str__ and of tokenize + Reader + name resolution; '
-               'tcfg_fixed = /repo + fixes/C15-*.diff): 6 refutations of the round trip for the code as it is (initial values '
-               'of globals lost; exponent-form and non-finite floats, rol/ror, ~ unreadable; operands defined later in the '
-               'text rejected), 5 refutations that remain (volatile lost, CopyBlob / Undefined unreadable, two replace_use '
-               'defects of ir.py), each replayed on the implementation; unbounded: every printable instruction kind, '
-               'statement, block and function/procedure definition is parsed back from its own tokens (16 per-kind theorems + '
-               'statement/block/function theorems); whole modules (lexer layer '
-               'lex(print_text m) = print_tokens m, reader result = normal form of m, textual fixpoint) on a generated '
-               'corpus of 60 modules / 87 functions (bounded, vm_compute). NOT proved: the unbounded module level (externals, variable '
-               'declarations, item list) of the parser, the lexer layer and the name resolution with forward-reference patching; they are covered '
-               'by the bounded theorem and the per-run correspondence only. InlineAsm/JumpTable are outside Spec.IRSyntax.')
+               'tcfg_fixed = /repo incl. fixes/C15-*.diff). Unbounded: c15_roundtrip: for every well-formed printable module the '
+               'printed characters are read back (lexer, parser, name resolution with forward references / placeholders / '
+               'replace_by) to the normal form of the module, which prints identically; proved layer by layer: c15_lex_render + '
+               'c15_layout_lexable (maximal-munch argument for the tokenizer model, every printer layout is lexable), '
+               'c15_module_parse (+16 per-kind theorems, statement/block/function), c15_resolve_roundtrip (reader-state invariant: '
+               'scopes = definitions seen so far, not yet defined references = placeholders, define_value = substitution). '
+               'Refutations: 6 for the baseline code (initial values of globals lost; exponent-form and non-finite floats, '
+               'rol/ror, ~ unreadable; operands defined later rejected), 3 replace_use defects of ir.py (repaired in /repo), 3 that '
+               'remain (volatile lost, CopyBlob / Undefined unreadable), each replayed on the implementation. The bounded corpus '
+               'theorem (67 modules) is kept as a cross-check of the definitions. printable = decidable: names are identifiers, float '
+               'repr texts are FLOAT lexemes that read back to the same bits, constructor checks of ppci.ir hold, no '
+               'CopyBlob/Undefined, phi not empty. Every run evaluates wf && printable in the model for each generated module '
+               'and requires the real round trip to have succeeded whenever they hold. InlineAsm/JumpTable are outside Spec.IRSyntax.')
 TRUSTED = ['hand model coq/Model/IrText.v (cross-checked against ppci.irutils on every run: text, tokens, reader result)',
            'the model reader is lex ; parse ; resolve while Python interleaves them lazily: for texts with several faults '
            'only the fact that reading fails is compared',
@@ -720,21 +729,20 @@ TRUSTED = ['hand model coq/Model/IrText.v (cross-checked against ppci.irutils on
            'str(int)/int(str) are inverse (the model prints integers with Coq DecimalString)',
            'Model.IrJson.patch_instr (ir.replace_use) shared with C16']
 ASSUMPTIONS = ['well-formed = Spec.IRSyntax.wf_modul; printable = Model.IrText.printable (names are identifiers '
-               '[A-Za-z][A-Za-z0-9_]*, constructor checks of ppci.ir hold, no CopyBlob/Undefined, phi with at least one input, '
-               'no double use of a later-defined value, rol/ror not applied to a value named like an instruction keyword)',
-               'equality up to what the text is not meant to carry: order of phi inputs (printed sorted by block name); the '
-               'loss of volatile flags is reported as a finding, not hidden',
-               'forward references, lexer and whole modules are covered by the bounded corpus theorem and the '
-               'correspondence, not by an unbounded theorem']
+               '[A-Za-z][A-Za-z0-9_]*, float repr texts are lexemes and fp (fr b) = b, constructor checks of ppci.ir hold, no '
+               'CopyBlob/Undefined, phi with at least one input, rol/ror not applied to a value named like an instruction keyword)',
+               'normal form = the module without what the text does not carry: volatile flags (reported as a finding, not hidden) '
+               'and the order of phi inputs (printed sorted by block name)',
+               'c15_roundtrip needs fx_fwd and the replace_use switches on: true for the current /repo (all C15 fixes and the '
+               'ir.replace_use fixes are applied); the check probes these switches on every run']
 MANIFEST = {
-    'text': 'proof (partial at module level): the code as it is loses the initial values of globals and cannot read back '
-            'exponent-form / non-finite floats, rol/ror, ~ and operands defined later in the text (6 Coq refutations replayed '
-            'on the implementation, 4 fix diffs); volatile flags, CopyBlob, Undefined and two replace_use defects remain as '
-            'known findings (5 refutations). On the repaired model Coq proves (unbounded) that every printable instruction '
-            'kind, statement, block and function definition is parsed back from its own tokens, and checks the whole round trip (lexer, reader, '
-            'normal form, identical re-print) by vm_compute on a generated corpus of 60 modules (bounded)',
-    'note': 'trusted: hand model Model/IrText.v (differentially checked against Writer/tokenize/Reader on ~550 cases per '
-            'quick run), irimport, CPython float repr. Not proved: unbounded module-level parser (externals, variables, item list), lexer layer, name '
-            'resolution with forward-reference patching.',
+    'text': 'proof: for every well-formed printable IR module the text printed by Writer/__str__ is lexed, parsed and resolved '
+            'back to the normal form of the module (volatile flags dropped, phi inputs sorted), which prints identically '
+            '(c15_roundtrip, unbounded, proved in Coq on the hand model: lexer layer, every declaration and instruction kind, '
+            'name resolution with forward references). The baseline code violated the property in 6 ways (refuted in Coq, '
+            'replayed, 4 fix diffs now applied); volatile flags, CopyBlob and Undefined remain known findings (refuted in Coq)',
+    'note': 'trusted: hand model Model/IrText.v (differentially checked against Writer/tokenize/Reader on ~1500 cases per '
+            'quick run incl. ~600 token spellings, and the theorem hypotheses are evaluated per generated module), irimport, '
+            'CPython float repr/float. The model reader is lex;parse;resolve, Python interleaves them (same result on success).',
     'technique': 'hand model + Coq proof + differential correspondence',
 }
